@@ -55,11 +55,29 @@ def c08(tier, seed):
     rng = random.Random(seed)
     wmax, hmax = (40, 24) if tier == "quick" else (100, 40)
     cmds = [{"op": "yuv", "w": 0, "y": [], "cb": [], "cr": []}]
+
+    def plane(n, style):
+        # arbitrary plane contents: uniform bytes, and low-entropy contents in which special values (neutral chroma 128,
+        # black 16, the extremes) sit next to other values - special-cased fast paths must not change the pairing
+        if style == 0:
+            return rbytes(rng, n)
+        if style == 1:
+            return [rng.choice([128, 128, 128, rng.randrange(256)]) for _ in range(n)]
+        if style == 2:
+            return [rng.choice([16, 128, 235, 240, 0, 255]) for _ in range(n)]
+        a, b = rng.randrange(256), rng.randrange(256)
+        return [a if (i // 2) % 2 == 0 else b for i in range(n)]
     for w in range(1, wmax + 1):
         for h in range(1, hmax + 1):
             cw, ch = (w + 1) // 2, (h + 1) // 2
-            cmds.append({"op": "yuv", "w": w, "y": rbytes(rng, w * h), "cb": rbytes(rng, cw * ch),
-                         "cr": rbytes(rng, cw * ch)})
+            st = (w * 31 + h * 17 + seed) % 4
+            cmds.append({"op": "yuv", "w": w, "y": plane(w * h, st), "cb": plane(cw * ch, (st + (w % 2)) % 4 if st else 0),
+                         "cr": plane(cw * ch, st)})
+    for i in range(400 if tier == "quick" else 4000):       # neutral chroma mixed with other values, many group alignments
+        w, h = rng.randrange(1, 33), rng.randrange(1, 9)
+        cw, ch = (w + 1) // 2, (h + 1) // 2
+        cmds.append({"op": "yuv", "w": w, "y": plane(w * h, rng.randrange(4)), "cb": plane(cw * ch, rng.choice([1, 2])),
+                     "cr": plane(cw * ch, rng.choice([1, 2]))})
     # a few large sizes spanning many SIMD groups
     for (w, h) in [(176, 144), (177, 3), (353, 2), (3, 301)] if tier == "thorough" else [(177, 3), (131, 2)]:
         cw, ch = (w + 1) // 2, (h + 1) // 2
@@ -223,9 +241,9 @@ class Hist:
         self.cmds = []
         self.n = 0
 
-    def new(self, sor=True, scal=False):
+    def new(self, sor=True, scal=False, maxread=0):
         self.n += 1
-        self.cmds.append({"op": "new", "d": 0, "sor": sor, "scal": scal, "h": self.n})
+        self.cmds.append({"op": "new", "d": 0, "sor": sor, "scal": scal, "h": self.n, "maxread": maxread})
         return self.n
 
     def decode(self, pic=None, **kw):
@@ -512,7 +530,7 @@ def c15(tier, seed):
                     pics.append(pg.intra_picture(rng, hdr, big=False, shape="sparse") if t == "I"
                                 else pg.inter_picture(rng, hdr, pt=t, big=False, shape="sparse"))
                 for concat in (True, False):
-                    H.new(sor=(mode != "plus"))
+                    H.new(sor=(mode != "plus"), maxread=rng.choice([0, 0, 0, 1, 2, 4]))
                     H.cmds[-1]["concat"] = concat
                     for p in pics:
                         if not concat:
@@ -616,9 +634,11 @@ def c06(tier, seed):
         H.op("newreader")
         H.decode(pg.inter_picture(rng, pg.header("sor", rng.choice(["P", "D"]), tr=rng.randrange(256), q=rng.randrange(1, 32), w=w, h=h,
                                                  ver=ver, db=rng.randrange(2)), pt=None or "P", big=False, shape="one"))
-    for c in H.cmds:
-        if "pic" in c and c["pic"]["pt"] not in ("I",):
-            c["pic"]["pt"] = c["pic"]["pt"]
+    # extreme aspect ratios of the 16-bit size code (opaque mode: outcome, shapes and the reported size are checked)
+    for (w, h) in [(65535, 1), (1, 65535), (65521, 16), (65520, 1), (16, 65521), (4095, 17), (32768, 2)]:
+        H.new()
+        hdr = pg.header("sor", "I", tr=rng.randrange(256), q=rng.randrange(1, 32), w=w, h=h, ver=rng.randrange(2), sc=1)
+        H.decode(pg.intra_picture(rng, hdr, big=False, shape="one", dquant=False), opaque=True, planes=False, expect="ok", why="extreme-size")
     enc2 = run.encode(H.cmds)
     run.drive_and_validate(enc2, "TraceDecoder", group=hkey, sample=1)
     run.evaluations = len(cmds) + len(H.cmds)
@@ -920,7 +940,10 @@ def c17(tier, seed):
         dpic = pg.inter_picture(rng, sor_hdr(rng, "D", 2, w, h, ver), pt="D", big=False)
         p2 = pg.inter_picture(rng, sor_hdr(rng, "P", 7, w, h, ver), big=False)
         a = [("I", ipic), ("P", ppic), ("D", dpic)]
-        c = [("I", pg.intra_picture(rng, sor_hdr(rng, "I", 5, w, h, ver), big=False)), ("R", None), ("P", p2)]
+        # the rejected input of the third instance fails deep inside the picture (block layer), after valid macroblocks
+        bad = pg.intra_picture(rng, sor_hdr(rng, "I", 9, w, h, ver), big=False, shape="dense")
+        bad["mbs"][-1]["b"][rng.randrange(6)]["dc"] = 0
+        c = [("I", pg.intra_picture(rng, sor_hdr(rng, "I", 5, w, h, ver), big=False)), ("R", bad), ("P", p2)]
         return [a, a, c]
     # encode a pool of program sets
     pools = [programs() for _ in range(6 if tier == "quick" else 40)]
@@ -929,19 +952,28 @@ def c17(tier, seed):
         for ii, prog in enumerate(progs):
             for k, (t, pic) in enumerate(prog):
                 if pic is not None:
-                    flat.append({"op": "decode", "d": 0, "pic": pic, "pool": pi, "inst": ii, "k": k})
+                    c_ = {"op": "decode", "d": 0, "pic": pic, "pool": pi, "inst": ii, "k": k}
+                    if t == "R":
+                        c_["opaque"] = True
+                        c_["why"] = "fails-in-block-layer"
+                    flat.append(c_)
     enc = run.encode(flat)
     byk = {(c["pool"], c["inst"], c["k"]): c for c in enc}
 
-    def inst_cmds(pi, ii):
-        out = [{"op": "new", "d": 0, "sor": True}]
+    def inst_cmds(pi, ii, maxread=0):
+        # replicas may get the same bytes handed out in different piece sizes: the result must not depend on it
+        out = [{"op": "new", "d": 0, "sor": True, "maxread": maxread}]
         for k, (t, pic) in enumerate(pools[pi][ii]):
             out.append({"op": "newreader", "d": 0})
             if pic is None:
                 out.append({"op": "decode", "d": 0, "bytes": GARBAGE[0], "why": "garbage"})
             else:
                 c = byk[(pi, ii, k)]
-                out.append({"op": "decode", "d": 0, "pic": c["pic"], "bytes": c["bytes"]})
+                d_ = {"op": "decode", "d": 0, "pic": c["pic"], "bytes": c["bytes"]}
+                if "opaque" in c:
+                    d_["opaque"] = True
+                    d_["why"] = c["why"]
+                out.append(d_)
         return out
     cmds = []
     # (b) every interleaving TLC produced, forced by a turnstile.  A call = newreader + decode (2 driver ops) after "new"
@@ -954,12 +986,18 @@ def c17(tier, seed):
         pi = oi % len(pools)
         # expand the model's call order into driver-op order: "new" of each instance first, then 2 ops per call
         dorder = [0, 1, 2] + [i for i in order for _ in range(2)]
-        cmds.append({"op": "threads", "insts": [inst_cmds(pi, 0), inst_cmds(pi, 1), inst_cmds(pi, 2)], "order": dorder,
+        cmds.append({"op": "threads", "insts": [inst_cmds(pi, 0), inst_cmds(pi, 1, maxread=rng.choice([0, 1, 2, 3])), inst_cmds(pi, 2)], "order": dorder,
                      "groups": [[0, 1]], "mode": "turnstile", "h": len(cmds)})
+    # (b') the same interleavings with all instances on ONE thread (per-thread state would be shared between instances)
+    for oi, order in enumerate(sel[:(200 if tier == "quick" else len(sel))]):
+        pi = (oi + 1) % len(pools)
+        dorder = [0, 1, 2] + [i for i in order for _ in range(2)]
+        cmds.append({"op": "threads", "insts": [inst_cmds(pi, 0), inst_cmds(pi, 1), inst_cmds(pi, 2)], "order": dorder, "single": True,
+                     "groups": [[0, 1]], "mode": "single-thread", "h": len(cmds)})
     # (c) free-running threads: 16 instances, replicas of 4 histories, repeated
     for rep in range(12 if tier == "quick" else 200):
         pi = rep % len(pools)
-        insts = [inst_cmds(pi, (k % 4) if (k % 4) < 3 else 0) for k in range(16)]
+        insts = [inst_cmds(pi, (k % 4) if (k % 4) < 3 else 0, maxread=(k // 4) % 4) for k in range(16)]
         groups = [[k for k in range(16) if (k % 4 if k % 4 < 3 else 0) == gsel] for gsel in range(3)]
         groups = [[k for k in range(16) if (k % 4) in (0, 1, 3)], [k for k in range(16) if k % 4 == 2]]
         cmds.append({"op": "threads", "insts": insts, "groups": groups, "mode": "free-running", "h": len(cmds)})
@@ -1076,12 +1114,15 @@ def c01(tier, seed):
     # structured attacks on the abstract level: declared size vs actual macroblocks, zero sizes, extremes
     attacks = []
     for (w, h) in [(16, 16), (32, 16)]:
-        for (dw, dh) in [(0, 0), (0, 16), (16, 0), (1, 1), (15, 15), (17, 17), (32, 32), (33, 16), (16, 33), (255, 255), (64, 1)]:
+        for (dw, dh) in [(0, 0), (0, 16), (16, 0), (1, 1), (15, 15), (17, 17), (32, 32), (33, 16), (16, 33), (255, 255), (64, 1),
+                         (65535, 1), (1, 65535), (65521, 16), (16, 65530), (4095, 1)]:
             for ver in (0, 1):
                 for pt in ("I", "P"):
                     hdr = sor_hdr(rng, pt, 3, w, h, ver)
                     p = pg.intra_picture(rng, hdr, big=False) if pt == "I" else pg.inter_picture(rng, hdr, big=False)
                     p["w"], p["h"] = dw, dh          # declared size differs from the macroblocks present
+                    if dw > 255 or dh > 255:
+                        p["sc"] = 1
                     attacks.append({"op": "x", "pic": p, "tag": "declare-%dx%d" % (dw, dh), "opaque": True, "w": w, "h": h, "ver": ver, "sor": True})
     for ver in (0, 1):
         for q in (1, 2, 30, 31):
@@ -1289,7 +1330,7 @@ def c05(tier, seed):
         for target in ("I", "P"):
             n = lens[(i, target)]
             for cut in range(1, n):
-                H.new()
+                H.new(maxread=rng.choice([0, 0, 1, 2, 3]))      # the source may also hand out its bytes in small pieces
                 if target == "P":
                     H.decode(json.loads(json.dumps(ipic)))
                     H.op("newreader")
@@ -1341,7 +1382,12 @@ def instantiate_history(H, rng, ops, w=16, h=16, ver=None, newreader=True, sor=T
         if newreader:
             H.op("newreader")
         if k == "R":
-            H.decode(None, bytes=rng.choice(GARBAGE))
+            # a rejected call: garbage, or a picture that fails in the header, macroblock or block layer
+            if rng.random() < 0.4:
+                H.decode(None, bytes=rng.choice(GARBAGE), why="garbage")
+            else:
+                name, fp = rng.choice(faulty_pictures(rng, w, h, ver, True))
+                H.decode(fp, opaque=True, why=name)
         elif k == "I":
             H.decode(pg.intra_picture(rng, sor_hdr(rng, "I", op[1], w, h, ver), big=False, shape=rng.choice(["one", "sparse"])))
         else:
